@@ -631,13 +631,13 @@ impl SubsetTable<'_> for VarColorStop {
         s.embed(*new_idx)?;
         s.embed(self.alpha())?;
 
-        let varidx_base = self.var_index_base();
+        // VarIdxBase: remapped, or NO_VARIATION_INDEX as is (exactly one field)
+        let mut varidx_base = self.var_index_base();
         if varidx_base != NO_VARIATION_INDEX {
             let Some((new_varidx, _)) = plan.colr_varidx_delta_map.get(&varidx_base) else {
                 return Err(s.set_err(SerializeErrorFlags::SERIALIZE_ERROR_OTHER));
             };
-            // update VarIdxBase
-            s.embed(*new_varidx)?;
+            varidx_base = *new_varidx;
         }
         s.embed(varidx_base).map(|_| ())
     }
